@@ -1,6 +1,7 @@
 """TTLV schema extractor: for each class with its own read()/write() produce ordered element lists
 (identity, tag, kind in {req,opt,rep}, version guards) for both directions (DESIGN.md section 1.6)."""
 import ast
+from .inline import flat
 
 from .astutil import U, dotted, classes as classes_of, walk_local, is_self_attr, enum_member, call_name, params
 from .index import Index
@@ -109,7 +110,8 @@ class Schema:
             for q, c in classes_of(t).items():
                 own = {n.name: n for n in c.body if isinstance(n, ast.FunctionDef)}
                 if 'read' in own and 'write' in own:
-                    out.append(((rel, q), own['read'], own['write']))
+                    # helpers introduced after the rules were written (same class / module level) are expanded in place
+                    out.append(((rel, q), flat(c, own['read']), flat(c, own['write'])))
         return out
 
     def extract(self, ref, fn, mode):
